@@ -673,6 +673,255 @@ class C04(ResolveSpec):
         return out
 
 
+
+IMPORT_MODEL = ["Base", "Extracted", "Criteria", "Search", "AuditGraph", "Update", "Show", "ShowUpdate", "Imports", "ShowImports"]
+
+
+def canon_live(sx):
+    e = vetlib.parse_sexp(sx) if isinstance(sx, str) else sx
+
+    def sec(x):
+        ps = []
+        for p in x[1:]:
+            if len(p) > 2:
+                ps.append([p[1]] + sorted(json.dumps(i) for i in p[2:]))
+        return sorted(ps)
+    out = {}
+    for x in e[1:]:
+        if x[0] == "imports":
+            out["imports"] = [[i[1], sec(i[2]), sec(i[3])] for i in x[1:]]
+        else:
+            out[x[0]] = sec(x)
+    return out
+
+
+class ImportSpec(Spec):
+    """properties decided on what go_online makes of peers and crates.io"""
+    quick_n = 120
+    thorough_n = 2500
+
+    def model_modules_paths(self):
+        return ["ShowImports"]
+
+    def gen_cases(self, rng, n):
+        return [gen.gen_import_case(rng, f"i{i}") for i in range(n)]
+
+    def project(self, live):
+        return live
+
+    def oracle(self, case, o, live):
+        return []
+
+    def post_oracle(self, bycase, obs):
+        return []
+
+    def nontrivial(self, case, o, live):
+        return True
+
+    def findings(self):
+        return []
+
+    def run(self, rng, tier, work, model_ok=True, ncases=None, replay=None):
+        n = ncases or (self.quick_n if tier == "quick" else self.thorough_n)
+        if replay:
+            with open(replay) as f:
+                r = json.load(f)
+            cases = [r.get("case", r)]
+            cases[0].setdefault("id", "replay")
+        else:
+            cases = load_corpus(self.pid) + self.gen_cases(rng, n)
+        finds = self.findings()
+        for fid, c, _ in finds:
+            c["id"] = "finding-" + fid
+        cases = cases + [c for _, c, _ in finds]
+        cases = [gen.finalize(c) if "store_struct" in c and "store" not in c else c for c in cases]
+        obs = vetlib.run_harness([gen.strip_struct(c) for c in cases], os.path.join(work, "impl"))
+        exprs = []
+        for cid, o in obs.items():
+            if o["status"] == "ok":
+                mi = o["model_input"]
+                exprs.append((cid, f"slive (go_online {coq(mi['table'])} {coq(mi['imports'])} {coq(mi['crates'])})"))
+        model = vetlib.run_model(exprs, os.path.join(work, "model"), IMPORT_MODEL) if model_ok else {}
+        res = {"cases": [c["id"] for c in cases], "mismatches": [], "oracle_failures": [], "samples": [],
+               "findings_seen": {}, "stats": {}}
+        bycase = {c["id"]: c for c in cases}
+        status = Counter(o["status"] for o in obs.values())
+        compared = 0
+        nontrivial = 0
+        seen = set()
+        dist = Counter()
+        for cid, o in obs.items():
+            case = bycase[cid]
+            if o["status"] == "refused":
+                dist["refused:" + o.get("error_kind", "?")] += 1
+                continue
+            if o["status"] != "ok":
+                res["mismatches"].append({"id": cid, "why": f"implementation {o['status']}: " + str(o.get("panic") or o.get("error"))[:300],
+                                          "case": gen.strip_struct(case)})
+                continue
+            live = canon_live(o["obs"])
+            if model_ok:
+                m = model.get(cid, "MODEL-ERROR: missing")
+                if m.startswith("MODEL-ERROR"):
+                    res["mismatches"].append({"id": cid, "why": "model evaluation failed: " + m[:300], "case": gen.strip_struct(case)})
+                else:
+                    compared += 1
+                    if self.project(canon_live(m)) != self.project(live):
+                        res["mismatches"].append({"id": cid, "why": "live imports differ", "impl": json.dumps(self.project(live))[:800],
+                                                  "model": json.dumps(self.project(canon_live(m)))[:800], "case": gen.strip_struct(case)})
+            for what in self.oracle(case, o, live):
+                fid = what.get("finding") if isinstance(what, dict) else None
+                text = what["what"] if isinstance(what, dict) else what
+                res["oracle_failures"].append({"id": cid, "what": text, "finding": fid, "case": gen.strip_struct(case)})
+            if self.nontrivial(case, o, live):
+                h = hashlib.sha256(json.dumps(self.project(live), sort_keys=True).encode()).hexdigest()
+                if h not in seen:
+                    seen.add(h)
+                    nontrivial += 1
+            dist["imports:%d" % len(live.get("imports", []))] += 1
+            if len(res["samples"]) < 2 and cid.startswith("i") and "-" not in cid:
+                res["samples"].append({"id": cid, "config": case["store"]["config"][:700],
+                                       "peers": {u: t[:500] for u, t in list(case.get("peers", {}).items())[:2]},
+                                       "observation": o["obs"][:500]})
+        for what in self.post_oracle(bycase, obs):
+            res["oracle_failures"].append(what)
+        for fid, c, still in finds:
+            o = obs.get(c["id"])
+            if o and still(o):
+                res["findings_seen"][fid] = True
+        res["nontrivial"] = nontrivial
+        res["stats"] = {"harness_status": dict(status), "compared": compared, "distribution": dict(dist)}
+        if res["mismatches"]:
+            with open(os.path.join(work, "mismatches.json"), "w") as f:
+                json.dump(res["mismatches"][:20], f, indent=1)
+        return res
+
+
+def expected_import(case, o):
+    """what each import should contain, from the peers' TOML-level description and the
+    property text (importable, exclude, criteria-map), independent of the model"""
+    store = case["store_struct"]
+    names = o["tables"]["names"]
+    crits = o["tables"]["criteria"]
+    out = []
+    for peer in sorted(store["imports"]):
+        imp = store["imports"][peer]
+        cmap = imp.get("criteria-map", {})
+        excl = set(imp.get("exclude", []))
+        audits, wilds = {}, {}
+        for u in imp["url"]:
+            pf = case["peers_struct"][u]
+            for n, l in pf.get("audits", {}).items():
+                if n in excl:
+                    continue
+                for a in l:
+                    if a.get("importable") is False:
+                        continue
+                    lc = [crits.index(c) for c in gen.localise(store, pf.get("criteria", {}), cmap, a["criteria"])]
+                    audits.setdefault(names.index(n), []).append((a["kind"], tuple(lc)))
+            for n, l in pf.get("wildcard_audits", {}).items():
+                if n in excl:
+                    continue
+                for w in l:
+                    lc = [crits.index(c) for c in gen.localise(store, pf.get("criteria", {}), cmap, w["criteria"])]
+                    wilds.setdefault(names.index(n), []).append((w["user-id"], tuple(lc)))
+        out.append((audits, wilds))
+    return out
+
+
+def observed_import(live):
+    out = []
+    for imp in live.get("imports", []):
+        audits, wilds = {}, {}
+        for p in imp[1]:
+            for item in p[1:]:
+                a = json.loads(item)
+                audits.setdefault(int(p[0]), []).append((a[1][0], tuple(int(x) for x in a[2][1:])))
+        for p in imp[2]:
+            for item in p[1:]:
+                w = json.loads(item)
+                wilds.setdefault(int(p[0]), []).append((int(w[1]), tuple(int(x) for x in w[4][1:])))
+        out.append((audits, wilds))
+    return out
+
+
+class C07(ImportSpec):
+    pid = "C07"
+    coq_files = ["Properties/C07.v"]
+    theorems = ["C07_mapping", "C07_unmapped_contributes_nothing", "C07_builtins_map_to_themselves", "C07_map_overrides",
+                "C07_exclude_audits_and_violations", "C07_exclude_wildcard_audits", "C07_imported_entries_come_from_the_peer",
+                "C07_multi_url_is_union", "C07_freshness_marking_keeps_entries"]
+    level_text = ("Theorems about the model of fetch_single_imported_audit / multi-URL aggregation / freshness marking, for every peer "
+                  "file, criteria-map and exclude list: C07_mapping (an imported entry denotes locally exactly the union over the "
+                  "closure of its criteria in the peer's table of what the criteria-map — consulted first — or the built-in rule maps "
+                  "each peer criterion to; unmapped criteria contribute nothing), C07_exclude_* (no audit, violation or wildcard audit "
+                  "of an excluded crate enters the import; the wildcard half is proved against a fact re-read from the source), "
+                  "C07_imported_entries_come_from_the_peer, C07_multi_url_is_union, C07_freshness_marking_keeps_entries. PARTIAL: the "
+                  "tolerant per-entry TOML parsing and the importable filter live in serde/toml code below the model; they are exercised "
+                  "by the oracle (junk-injection metamorphic test, importable entries absent) on the implementation.")
+    level_note = ("Model input = the peer file after cargo-vet's own foreign_audit_file_to_local (run by the harness), so the parser half "
+                  "is tested not proved. Locked-mode exclusion is the imports_lock_outdated clause, exercised in C09/C15 histories.")
+    design_ref = "DESIGN.md §4 C07"
+    rule = ("seeded graphs with 1-2 imports (1-2 URLs each); peer files with their own criteria tables (0-2 criteria with implications), "
+            "entries of every kind incl. non-importable ones and violations, wildcard audits, trusted tables; criteria-maps incl. "
+            "overriding built-ins with [] or weaker criteria; exclude lists; imports.lock holding some already-localised entries; a mock "
+            "crates.io; each base case is paired with a junk variant (malformed / future-format entries appended to every peer file); "
+            "non-trivial = at least one imported entry whose criteria were rewritten through a custom mapping or an exclude that removes something")
+    projection_doc = "the complete live import set (per import and crate: audits and wildcard audits with localised criteria and freshness; publisher and unpublished tables), as multisets"
+    assumptions = ["mock network / mock crates.io", "peer files are served as generated text and parsed by the real toml + serde code"]
+
+    def gen_cases(self, rng, n):
+        out = []
+        for i in range(n):
+            base = gen.gen_import_case(rng, f"i{i}")
+            out.append(base)
+            if i % 2 == 0:
+                v = dict(base)
+                v["id"] = f"i{i}-junk"
+                names = sorted({p["name"] for p in base["graph"]["packages"]})
+                v["peers"] = {u: gen.add_junk(rng, t, names) for u, t in base["peers"].items()}
+                out.append(v)
+        return out
+
+    def nontrivial(self, case, o, live):
+        st = case["store_struct"]
+        return any(i.get("criteria-map") or i.get("exclude") for i in st["imports"].values()) and bool(live.get("imports"))
+
+    def oracle(self, case, o, live):
+        if "peers_struct" not in case or cid_is_variant(case["id"]):
+            return []
+        out = []
+        exp = expected_import(case, o)
+        got = observed_import(live)
+        names = o["tables"]["names"]
+        if len(exp) != len(got):
+            return [f"{len(got)} imports observed, {len(exp)} configured"]
+        for k, ((ea, ew), (ga, gw)) in enumerate(zip(exp, got)):
+            for table, e, g in (("audits", ea, ga), ("wildcard audits", ew, gw)):
+                for n in set(e) | set(g):
+                    if sorted(e.get(n, [])) != sorted(g.get(n, [])):
+                        out.append(f"import #{k}, crate {names[n]}: imported {table} {sorted(g.get(n, []))} but the peer's importable, "
+                                   f"non-excluded entries mapped through the criteria-map are {sorted(e.get(n, []))}")
+                        break
+        return out[:3]
+
+    def post_oracle(self, bycase, obs):
+        out = []
+        for cid, o in obs.items():
+            if cid.endswith("-junk"):
+                b = obs.get(cid[:-5])
+                if not b:
+                    continue
+                if b["status"] != o["status"] or (o["status"] == "ok" and canon_live(b["obs"]) != canon_live(o["obs"])):
+                    out.append({"id": cid, "what": "appending malformed / future-format entries to a peer file changed how its remaining entries were imported",
+                                "finding": None, "case": gen.strip_struct(bycase[cid])})
+        return out
+
+
+def cid_is_variant(cid):
+    return cid.endswith("-junk")
+
+
 import hist  # noqa: E402
 
 
@@ -794,7 +1043,7 @@ class C13(HistorySpec):
     assumptions = C09.assumptions
 
 
-REGISTRY = {c.pid: c for c in [C01, C02, C04, C05, C06, C09, C10, C11, C12, C13]}
+REGISTRY = {c.pid: c for c in [C01, C02, C04, C05, C06, C07, C09, C10, C11, C12, C13]}
 
 
 def get(pid):
